@@ -43,7 +43,12 @@ func H_C14_bucket() {
 	tokens := vF64("tokens")
 	vAssume(tokens >= 0)
 	vAssume(tokens <= float64(burst))
-	b := &tokenBucket{tokens: tokens, last: time.Now(), rate: rate, burst: float64(burst)}
+	// the time since the previous request is an input (so that a counterexample can be replayed natively:
+	// the engine's clock stands still, the native one advances by nanoseconds on top of it)
+	back := vI64("elapsedNanos")
+	vAssume(back >= 0)
+	vAssume(back <= 3600*1000000000)
+	b := &tokenBucket{tokens: tokens, last: time.Now().Add(-time.Duration(back)), rate: rate, burst: float64(burst)}
 	ok := b.Allow()
 	vAssert(b.tokens >= 0, "tokens never negative")
 	vAssert(b.tokens <= b.burst, "tokens never exceed the burst")
